@@ -208,7 +208,7 @@ pub fn run(ck: &mut Check) {
     }
     ck.floor("selection_and_reads_all_cells", "selection_compared", 50_000);
     ck.floor("selection_and_reads_all_cells", "selection_ge_4_pairs", 5_000);
-    let cnt = ck.n(150_000, 5_000_000);
+    let cnt = ck.n(400_000, 5_000_000);
     let cases2 = cases.clone();
     ck.prop(
         "perturbations_outside_selection",
